@@ -8,6 +8,7 @@ import (
 	"strings"
 	"time"
 
+	"github.com/opencontainers/go-digest"
 	ocispec "github.com/opencontainers/image-spec/specs-go/v1"
 	oras "oras.land/oras-go/v2"
 	"verifharness/common"
@@ -603,6 +604,33 @@ func genFormats() {
 	}
 }
 
+// digestCase: digest.FromBytes(..).String() against the modelled SHA-256.
+func digestCase(s string) {
+	id := run.NewID()
+	run.Case(id, "S "+common.Hex(s), common.Hex(digest.FromBytes([]byte(s)).String()))
+	run.Count("sha256")
+}
+
+func genDigests() {
+	r := run.Rand.Fork()
+	for _, n := range []int{0, 1, 2, 3, 54, 55, 56, 57, 63, 64, 65, 118, 119, 120, 127, 128, 129, 200, 1000} {
+		digestCase(strings.Repeat("a", n))
+		b := make([]byte, n)
+		for j := range b {
+			b[j] = byte(r.Intn(256))
+		}
+		digestCase(string(b))
+	}
+	n := run.Scale(150, 5000)
+	for i := 0; i < n; i++ {
+		b := make([]byte, r.Intn(300))
+		for j := range b {
+			b[j] = byte(r.Intn(256))
+		}
+		digestCase(string(b))
+	}
+}
+
 func genUTF8() {
 	r := run.Rand.Fork()
 	alpha := []byte{'a', 0x7f, 0x80, 0xbf, 0xc0, 0xc2, 0xe0, 0xa0, 0x9f, 0xed, 0xef, 0xf0, 0x90, 0x8f, 0xf4, 0xf5, 0xff}
@@ -824,6 +852,8 @@ func main() {
 					continue
 				}
 				packCase(&sp)
+			case "S":
+				digestCase(common.UnHex(c["hex"]))
 			case "U", "J", "B":
 				utf8Case(common.UnHex(c["hex"]))
 			case "L":
@@ -843,6 +873,7 @@ func main() {
 	genPacks()
 	genTimes()
 	genFormats()
+	genDigests()
 	genUTF8()
 	genMediaTypes()
 	floors()
@@ -856,7 +887,7 @@ func floors() {
 		"target_registry": 50, "target_oci+exists": 50, "target_file+exists": 50, "target_registry+exists": 50, "copy_checked": 300,
 		"determinism_checked": 300, "history_second_call": 300, "history_chained_call": 150, "idempotence_checked": 200, "registry_validating": 50, "file_named_blob": 50, "file_titled_config": 30, "file_titled_manifest": 10, "file_duplicate_name": 20, "enumerated_file_titles": 200, "prefilled": 300, "non_utf8_input": 50, "sha512_descriptor": 50, "config_empty_media_type": 10,
 		"enumerated": 1000, "enumerated_faults": 1000, "time_accepted": 1000, "parse_accepted": 1000, "parse_rejected": 1000, "time_rejected": 1000, "mediatype_valid": 1000,
-		"mediatype_invalid": 1000, "utf8_coerced": 500, "json_string": 1000, "format_valid": 1000, "format_invalid": 20, "base64": 1000, "utf8_unchanged": 100}
+		"mediatype_invalid": 1000, "utf8_coerced": 500, "json_string": 1000, "format_valid": 1000, "sha256": 150, "format_invalid": 20, "base64": 1000, "utf8_unchanged": 100}
 	var low []string
 	for k, n := range want {
 		if run.Dist[k] < n {
